@@ -48,6 +48,16 @@ class _FakeFile:
     def read(self):
         return "".join(self._lines)
 
+    def readline(self):
+        self._pos = getattr(self, "_pos", 0) + 1
+        return self._lines[self._pos - 1] if self._pos <= len(self._lines) else ""
+
+    def __iter__(self):
+        return iter(list(self._lines))
+
+    def close(self):
+        pass
+
 
 def h_dat_rows(eng, nrows, seps, res_len, atom_len, with_group, dup):
     """rows of a user parameter file: get_params returns exactly the row's numbers"""
@@ -113,6 +123,30 @@ def h_dat_rows(eng, nrows, seps, res_len, atom_len, with_group, dup):
             eng.check(core.Implies(hit_comment, q9 is None and r9 is None), "comment-rows-ignored", note="a commented-out row produced parameters")
     finally:
         strs.ALLOW_HASH[0] = False
+
+
+def h_two_loads(eng):
+    """the same parameter-file path is read twice in one process with different contents: the second
+    force field must carry the second file's numbers (no state survives between loads)"""
+    from pdb2pqr import forcefield
+
+    qa, qb = eng.real("q_first_load"), eng.real("q_second_load")
+    eng.assume(And(qa > -10, qa < 10, qb > -10, qb < 10))
+    names = ["<?xml version='1.0'?>\n", "<ff>\n", "</ff>\n"]
+    content = {}
+
+    def fake_open(path, *a, **k):
+        return _FakeFile(content["lines"] if str(path).endswith(".dat") else names)
+
+    sh = (builtin_shims(forcefield, ("float",)) + [(forcefield, "str", strs.sym_str_t)]) if eng.symbolic else []
+    got = []
+    with patched(*sh, (forcefield, "open", fake_open)):
+        for q in (qa, qb):
+            content["lines"] = [strs.fstring("ALA  CB  ", format(q, ".4f"), " 1.9000\n"), "ALA  CA  0.1000 1.8000\n"]
+            ff = forcefield.Forcefield(None, fixtures.pristine_definition(), "same/path/user.dat", "user.names")
+            got.append(ff.get_params("ALA", "CB"))
+    for (gq, gr), q, tag in zip(got, (qa, qb), ("first", "second")):
+        eng.check(gq is not None and core.close(gq, q, 0.00005 + 1e-9), f"{tag}-load-carries-its-own-file", note=f"{tag} load of the same path does not return the charge written in the file at that time")
 
 
 def h_bad_number(eng, which):
@@ -302,6 +336,7 @@ def obligations(tier):
                         continue
                     tag = f"rows{nrows}{'dup' if dup else ''}-sep{'+'.join(repr(s)[1:-1] for s in seps)}-r{res_len}a{atom_len}{'-group' if with_group else ''}"
                     obs.append(Obligation(f"dat-{tag}", h_dat_rows, dict(nrows=nrows, seps=seps, res_len=res_len, atom_len=atom_len, with_group=with_group, dup=dup), group="dat", time_cap=1500, max_paths=100000))
+    obs.append(Obligation("dat-two-loads-same-path", h_two_loads, {}, group="dat", time_cap=600))
     obs.append(Obligation("dat-bad-charge", h_bad_number, dict(which="charge"), group="dat"))
     obs.append(Obligation("dat-bad-radius", h_bad_number, dict(which="radius"), group="dat"))
     for sym_atoms in (["N", "CB"], ["H1", "O"], ["HA", "C"], ["CA", "H2"]) if tier == "quick" else (["N", "CB"], ["H1", "O"], ["HA", "C"], ["CA", "H2"], ["N", "CA", "O"], ["HA2", "HA3", "H"]):
